@@ -77,3 +77,8 @@ add("C07", "c07", "exploration", 400, 10000, exhaustive_if=[],
     assumptions=["real loopback HTTP, one httptest server per hop, statuses observed by a tap transport on every hop",
                  "multi-%w joins are not generated (MarshalError documents that it picks one); error bodies stay below the client's documented 8 KiB limit",
                  "BlobWriter methods are not carriers (the property names Interface methods)"])
+
+add("C06", "c06", "exploration", 3000, 100000,
+    assumptions=["the handler is driven in-process (ServeHTTP + httptest.ResponseRecorder) so net/http's own request sanitising is bypassed: strictly more hostile than the wire",
+                 "a 500 with code UNKNOWN is conformant by the statement (status agrees with the code) and is not flagged",
+                 "backend is ocimem behind a recording wrapper; backend-side inconsistencies are not injected here"])
